@@ -1,6 +1,6 @@
 """R-EFFECT: transitive write sets of data members over calls on the same object."""
 from .facts import strip, callee, call_object, callee_node
-from .typestate import member_writes
+from .typestate import member_writes, member_of
 
 
 def is_this_call(n):
@@ -67,3 +67,123 @@ class Effects:
 
         visit(fn, [], 0)
         return res
+
+
+# ------------------------------------------------------------------------------------------
+# const purity (C12): effects that make a const call unsafe to run concurrently
+from .facts import walk, txt
+from .flow import element_writes, base_var, is_accessor, ASSIGN_OPS
+
+
+def direct_impurities(fn):
+    """(node, kind, what) for writes to mutable members, to globals / function-local statics, and
+    non-const calls on mutable members, inside this function (lambdas included)"""
+    out = []
+    statics = {}
+    for n in fn.walk():
+        if n.get("k") == "VarDecl" and n.get("staticlocal") and not n.get("const"):
+            statics[n["did"]] = n
+    for n, f, kind in member_writes(fn):
+        # is the written member declared mutable?  look at the MemberExpr inside the lvalue
+        mut = False
+        for x in walk(n):
+            if x.get("k") == "MemberExpr" and x.get("field") == f and x.get("mut"):
+                mut = True
+        if mut:
+            out.append((n, "mutable-member", f))
+    for n in fn.walk():
+        for did, kind, rhs in element_writes(n):
+            if kind == "decl":
+                continue
+            if did in statics:
+                out.append((n, "function-static", statics[did]["name"]))
+        # globals: DeclRefExpr with 'global' as assignment target / mutated argument
+        k = n.get("k")
+        c = n.get("c") or []
+        tgt = None
+        if k in ("BinaryOperator", "CompoundAssignOperator") and n.get("op") in ASSIGN_OPS:
+            tgt = c[0]
+        elif k == "UnaryOperator" and n.get("op") in ("++", "--"):
+            tgt = c[0]
+        elif k == "CXXOperatorCallExpr" and n.get("op") in ASSIGN_OPS + ("++", "--") and len(c) > 1:
+            tgt = c[1]
+        elif k == "CXXMemberCallExpr":
+            h = strip(c[0], casts=False)
+            if h is not None and not h.get("cm") and not h.get("static") and not is_accessor(h.get("fn", "")):
+                tgt = call_object(n)
+        if tgt is not None:
+            t = strip(tgt)
+            while t is not None and t.get("k") in ("MemberExpr", "ArraySubscriptExpr") and t.get("c"):
+                t = strip(t["c"][0])
+            if t is not None and t.get("k") == "DeclRefExpr" and "global" in t and not t.get("constvar") and not t.get("staticlocal"):
+                out.append((n, "global", t["global"]))
+        if k == "CXXConstCastExpr":
+            out.append((n, "const_cast", txt(n)[:60]))
+    return out
+
+
+class Purity:
+    def __init__(self, db, skip_call=None):
+        self.db = db
+        self.skip_call = skip_call
+        db.load_all()
+        self._direct = {}
+
+    def direct(self, fn):
+        k = (fn.key, fn.sig)
+        if k not in self._direct:
+            self._direct[k] = direct_impurities(fn)
+        return self._direct[k]
+
+    def targets(self, fn, call):
+        t = self.db.resolve(call)
+        h = callee_node(call) or {}
+        res = []
+        if t is not None:
+            res.append(t)
+        if h.get("virt"):
+            res += self.db.overriders(h.get("fn"), h.get("csig"))
+        return res
+
+    def closure(self, fn, depth=25):
+        """list of (path, fn, node, kind, what) reachable from fn.  Writes to mutable members count only
+        along calls whose receiver is rooted in the entry object (this, or a member of it): effects on
+        call-local objects are invisible to other threads.  Global / function-static effects always count."""
+        found = []
+        seen = set()
+
+        def visit(f, path, d, rooted):
+            k = (f.key, f.sig, rooted)
+            if k in seen or d > depth:
+                return
+            seen.add(k)
+            for n, kind, what in self.direct(f):
+                if kind in ("mutable-member", "const_cast") and not rooted:
+                    continue
+                found.append((path + [f.loc(n)], f, n, kind, what))
+            for call in f.walk():
+                if callee(call) is None:
+                    continue
+                if self.skip_call is not None and self.skip_call(f, call):
+                    continue
+                tg = self.targets(f, call)
+                if not tg:
+                    continue
+                r = False
+                if call.get("k") == "CXXMemberCallExpr":
+                    o = call_object(call)
+                    so = strip(o) if o is not None else None
+                    r = rooted and so is not None and (so.get("k") == "CXXThisExpr" or member_of(so) is not None)
+                elif call.get("k") == "CXXOperatorCallExpr" and len(call.get("c", [])) > 1:
+                    r = rooted and member_of(call["c"][1]) is not None
+                else:
+                    # free function: rooted if a member of the entry object is passed by mutable reference/pointer
+                    from .facts import call_args
+                    args = call_args(call)
+                    r = rooted and any(i < len(args) and member_of(args[i]) is not None for i in call.get("mutargs", []))
+                for t in tg:
+                    nm = t.name.split("::")
+                    visit(t, path + ["%s -> %s" % (f.loc(call), "::".join(nm[-2:]))], d + 1, r)
+        visit(fn, [], 0, True)
+        self.visited = {(k[0], k[1]) for k in seen}
+        return found
